@@ -15,3 +15,8 @@ func TestC05(t *testing.T) { Check(t, "C05") }
 func TestC07(t *testing.T) { Check(t, "C07") }
 func TestC08(t *testing.T) { Check(t, "C08") }
 func TestC09(t *testing.T) { Check(t, "C09") }
+func TestC12(t *testing.T) { Check(t, "C12") }
+func TestC14(t *testing.T) { Check(t, "C14") }
+func TestC15(t *testing.T) { Check(t, "C15") }
+func TestC16(t *testing.T) { Check(t, "C16") }
+func TestC18(t *testing.T) { Check(t, "C18") }
